@@ -19,7 +19,7 @@ Proof.
     + exists []. symmetry; apply app_nil_r.
   - exists []. symmetry; apply app_nil_r.
   - destruct (tag_lookup n (cm_tags st)); exists []; symmetry; apply app_nil_r.
-  - destruct (cm_points st) as [[tg p]|]; exists []; symmetry; apply app_nil_r.
+  - destruct (attr_shadowed n); [exists []; symmetry; apply app_nil_r|]. destruct (cm_points st) as [[tg p]|]; exists []; symmetry; apply app_nil_r.
   - exists []. symmetry; apply app_nil_r.
 Qed.
 Lemma Forall_le_app (tags : list (string * nat)) (l added : cstate (F:=R)) :
@@ -35,7 +35,7 @@ Proof.
     + destruct (step_spec _ _ _ _ E) as (_ & fr & _ & ->). apply Forall_le_app, Ht.
   - split; cbn [cm_tr cm_tags fst]; [exact Hi|]. constructor; [cbn; lia | exact Ht].
   - destruct (tag_lookup n (cm_tags st)); cbn [fst]; split; assumption.
-  - destruct (cm_points st) as [[tg q]|]; cbn [fst]; split; assumption.
+  - destruct (attr_shadowed n); [split; assumption|]. destruct (cm_points st) as [[tg q]|]; cbn [fst]; split; assumption.
   - split; assumption.
 Qed.
 Lemma cm_final_Inv ops : forall st, Forall cm_op_ok ops -> cm_Inv st -> cm_Inv (cm_final ROps ops st).
@@ -154,7 +154,7 @@ Proof.
   - destruct (step ROps (cm_tr st) t) as [[tr' i]|e]; reflexivity.
   - cbn [fst cm_tags]. apply tag_lookup_other, H.
   - destruct (tag_lookup n (cm_tags st)); reflexivity.
-  - destruct (cm_points st) as [[tg q]|]; reflexivity.
+  - destruct (attr_shadowed n); [reflexivity|]. destruct (cm_points st) as [[tg q]|]; reflexivity.
   - reflexivity.
 Qed.
 Lemma do_transform_preserved_step st o pts a b : cm_Inv st -> not_retag a o -> not_retag b o ->
@@ -191,12 +191,22 @@ Proof.
   intros H. cbn [cm_step]. unfold do_transform. destruct (tag_lookup a (cm_tags st)); [|reflexivity].
   destruct (tag_lookup b (cm_tags st)); [|reflexivity]. destruct H; discriminate.
 Qed.
-Lemma get_before_set st n : cm_points st = None -> cm_step ROps st (CGetAttr n) = (st, Raise ValueError).
-Proof. intros H. cbn [cm_step]. rewrite H. reflexivity. Qed.
+Lemma get_before_set st n : attr_shadowed n = false -> cm_points st = None ->
+  cm_step ROps st (CGetAttr n) = (st, Raise ValueError).
+Proof. intros Hs H. cbn [cm_step]. rewrite Hs, H. reflexivity. Qed.
 (* reading through an attribute = do_transform from the tag the points were assigned at *)
-Lemma get_is_do_transform st tag pts n : cm_points st = Some (tag, pts) ->
+Lemma get_is_do_transform st tag pts n : attr_shadowed n = false -> cm_points st = Some (tag, pts) ->
   cm_step ROps st (CGetAttr n) = cm_step ROps st (CDoTransform pts tag n).
-Proof. intros H. cbn [cm_step]. rewrite H. reflexivity. Qed.
+Proof. intros Hs H. cbn [cm_step]. rewrite Hs, H. reflexivity. Qed.
+(* a tag named like an attribute of the class: the attribute read does not convert *)
+Lemma get_shadowed_refuted : exists (st : cm_state (F:=R)) tag pts n,
+  cm_points st = Some (tag, pts) /\ tag_lookup n (cm_tags st) <> None /\
+  snd (cm_step ROps st (CGetAttr n)) <> snd (cm_step ROps st (CDoTransform pts tag n)).
+Proof.
+  exists (MkCM [("flip"%string, 1%nat); ("a"%string, 0%nat)] (Some ("a"%string, [V3 1 2 3])) [tm_translation ROps (V3 1 0 0)]),
+    "a"%string, [V3 1 2 3], "flip"%string.
+  split; [reflexivity|]. split; [cbn; discriminate|]. cbn. discriminate.
+Qed.
 Lemma set_known_tag st n i pts : tag_lookup n (cm_tags st) = Some i ->
   cm_step ROps st (CSetAttr n pts) = (MkCM (cm_tags st) (Some (n, pts)) (cm_tr st), Ok OutNone).
 Proof. intros H. cbn [cm_step]. rewrite H. reflexivity. Qed.
@@ -207,3 +217,21 @@ Lemma tag_as_records_length st n :
   tag_lookup n (cm_tags (fst (cm_step ROps st (CTagAs n)))) = Some (List.length (cm_tr st)) /\
   cm_tr (fst (cm_step ROps st (CTagAs n))) = cm_tr st.
 Proof. cbn [cm_step fst cm_tags cm_tr]. split; [apply tag_lookup_same | reflexivity]. Qed.
+
+(* ---------------- the same at the level of tag names ---------------- *)
+Lemma do_transform_path_independent st pts a b c q : cm_Inv st ->
+  do_transform ROps st pts a b = Ok q -> do_transform ROps st q b c = do_transform ROps st pts a c.
+Proof.
+  intros Hinv. unfold do_transform.
+  destruct (tag_lookup a (cm_tags st)) as [i|] eqn:Ea; [|discriminate].
+  destruct (tag_lookup b (cm_tags st)) as [j|] eqn:Eb; [|discriminate].
+  intros H. injection H as <-. destruct (tag_lookup c (cm_tags st)) as [k|] eqn:Ec; [|reflexivity].
+  f_equal. apply path_independent; [apply Hinv | eapply tag_lookup_bound; eassumption ..].
+Qed.
+Lemma do_transform_round_trip st pts a b q : cm_Inv st ->
+  do_transform ROps st pts a b = Ok q -> do_transform ROps st q b a = Ok pts.
+Proof.
+  intros Hinv H. rewrite (do_transform_path_independent st pts a b a q Hinv H).
+  unfold do_transform in *. destruct (tag_lookup a (cm_tags st)) as [i|]; [|discriminate].
+  rewrite convert_same. reflexivity.
+Qed.
